@@ -75,7 +75,15 @@ def run(ctx):
     ref = ctx.tlc("GroupChain", cfg="GroupChain.cfg", coverage=not quick)
     crash = ctx.tlc("GroupChain", cfg="GroupChain_crash.cfg", allow_violation=True)
     # 2. TLC-generated call histories (model -> code)
-    gen, hists = tlc_histories(ctx, [1, 2] if quick else [1, 2, 3], 4)
+    # (three ids at depth 4 would be 3.2 M histories: the thorough tier takes every history of two ids
+    #  at depth 4 - plain, fork-switch and a large sample of the overlapping-call ones - plus every
+    #  history of three ids at depth 3)
+    gen, hists = tlc_histories(ctx, [1, 2], 4)
+    if not quick:
+        gen3, hists3 = tlc_histories(ctx, [1, 2, 3], 3)
+        gen["distinct"] += gen3["distinct"]
+        gen["generated"] += gen3["generated"]
+        hists = hists + hists3
     # negative control: were the predecessor compared before the lock, overlapping adds would break the list
     early, _ = tlc_histories(ctx, [1, 2], 3, early=True)
     if not early["error"]:
@@ -91,7 +99,7 @@ def run(ctx):
     rng.shuffle(forks)
     rng.shuffle(concs)
     log("histories: %d plain, %d ending in a fork switch, %d ending in overlapping calls" % (len(plain), len(forks), len(concs)))
-    hists = plain + (forks[:700] if quick else forks[:12000]) + (concs[:900] if quick else concs[:12000])
+    hists = plain + (forks[:700] if quick else forks[:20000]) + (concs[:900] if quick else concs[:25000])
     drv = ctx.build("c19")
     # one driver process per chunk of histories: every history opens fresh stores (and the node's
     # logger set-up leaks two file descriptors per initialisation), so a process stays well below
@@ -141,9 +149,9 @@ def run(ctx):
         "real_calls": calls,
         "tlc_generated_histories": len(plain) + len(forks) + len(concs),
         "tlc_histories_replayed": len(hists),
-        "fork_switch_histories_replayed": min(len(forks), 700 if quick else 12000),
+        "fork_switch_histories_replayed": min(len(forks), 700 if quick else 20000),
         "overlapping_call_histories_generated": len(concs),
-        "overlapping_call_histories_replayed": min(len(concs), 900 if quick else 12000),
+        "overlapping_call_histories_replayed": min(len(concs), 900 if quick else 25000),
         "samples": samples,
         "design_level_inductive_invariant": proof,
         "action_coverage": ref["coverage"],
